@@ -735,6 +735,24 @@ def rule_T3(ctx, rid='T3'):
                'the setter recomputes every shell on every returning path' if ok else
                'a returning path of the setter skips the recomputation (e.g. when the value is '
                'unchanged): statistics go stale when `explored` changed in between')
+        # ... and stores what it was given: the flag attribute receives the value parameter
+        # on every returning path, before the recomputation that reads it
+        val = [p_ for p_ in f.params if p_ != f.self_name]
+        if val:
+            stores = {nn.id for nn in cfg.nodes if nn.kind == 'stmt' and
+                      isinstance(nn.ast, ast.Assign) and len(nn.ast.targets) == 1 and
+                      isinstance(nn.ast.targets[0], ast.Attribute) and
+                      isinstance(nn.ast.targets[0].value, ast.Name) and
+                      nn.ast.targets[0].value.id == f.self_name and
+                      isinstance(nn.ast.value, ast.Name) and nn.ast.value.id == val[0]}
+            oks = bool(stores) and cfg.must_pass(cfg.entry.id, cfg.exit.id, stores) and \
+                all(any(cfg.dominates(s_, a_) for s_ in stores) for a_ in alls)
+            ctx.ob(rid, '%s:stores-its-argument' % f.qualname, oks, f.where(),
+                   'the setter stores the requested value before recomputing the statistics'
+                   if oks else
+                   'the setter does not store the requested value (on every path, before the '
+                   'recomputation): switching the view has no effect or the statistics are '
+                   'recomputed for the old value')
     # update_shell_info is a pure recomputation: reads of its outputs follow its own writes
     f = prog.func('Sampler.update_shell_info')
     cfg = cfg_of(f)
